@@ -36,6 +36,12 @@ struct State {
     points: Vec<Point>,
     diverged: bool,
     hook_sites: u64,
+    /// threads found blocked on something the scheduler does not control (a real lock held by a
+    /// preempted thread): they are not enabled until they show up at a point again
+    blocked: Vec<bool>,
+    last_event: std::time::Instant,
+    forced_switches: u64,
+    deadlock: bool,
 }
 
 struct Sched {
@@ -72,8 +78,10 @@ fn canonical(enabled: &BTreeSet<usize>, running: Option<usize>) -> Vec<usize> {
 impl Sched {
     /// A scheduling decision. `me_running` = the calling thread may continue.
     fn decide(&self, st: &mut State, running: Option<usize>) {
-        let enabled: BTreeSet<usize> = (0..st.finished.len()).filter(|&i| !st.finished[i]).collect();
+        st.last_event = std::time::Instant::now();
+        let enabled: BTreeSet<usize> = (0..st.finished.len()).filter(|&i| !st.finished[i] && !st.blocked[i]).collect();
         if enabled.is_empty() {
+            // everybody finished - or everybody left is blocked; the watchdog in run_once tells the two apart
             st.current = usize::MAX - 1;
             return;
         }
@@ -93,6 +101,16 @@ impl Sched {
     fn yield_point(&self, me: usize) {
         let mut st = self.m.lock().unwrap();
         st.hook_sites += 1;
+        if st.current != me {
+            // I was found blocked and lost the token meanwhile; I am runnable again: wait for my turn
+            st.blocked[me] = false;
+            st.last_event = std::time::Instant::now();
+            self.cv.notify_all();
+            while st.current != me {
+                st = self.cv.wait(st).unwrap();
+            }
+            return;
+        }
         self.decide(&mut st, Some(me));
         self.cv.notify_all();
         while st.current != me {
@@ -112,7 +130,11 @@ impl Sched {
     fn finish(&self, me: usize) {
         let mut st = self.m.lock().unwrap();
         st.finished[me] = true;
-        self.decide(&mut st, None);
+        st.blocked[me] = false;
+        if st.current == me || st.current >= st.finished.len() {
+            self.decide(&mut st, None);
+        }
+        st.last_event = std::time::Instant::now();
         self.cv.notify_all();
     }
 }
@@ -173,6 +195,9 @@ pub fn fine_configs(thorough: bool) -> Vec<(String, Vec<Vec<Call>>)> {
         ("substr", json!({"substr": [{"var": "s"}, -2]})),
         ("arith", json!({"+": [{"var": "n"}, "2"]})),
     ];
+    if !thorough {
+        fam.truncate(3);
+    }
     if thorough {
         fam.extend(vec![
             ("reduce", json!({"reduce": [{"var": "xs"}, {"+": [{"var": "current"}, {"var": "accumulator"}]}, 0]})),
@@ -264,6 +289,10 @@ pub fn run_once(bodies: &[Vec<Call>], prefix: &[usize]) -> Execution {
             points: Vec::new(),
             diverged: false,
             hook_sites: 0,
+            blocked: vec![false; n],
+            last_event: std::time::Instant::now(),
+            forced_switches: 0,
+            deadlock: false,
         }),
         cv: Condvar::new(),
     });
@@ -307,9 +336,50 @@ pub fn run_once(bodies: &[Vec<Call>], prefix: &[usize]) -> Execution {
         sched.decide(&mut st, None);
         sched.cv.notify_all();
     }
+    // watchdog: the token holder may block on a real lock held by a preempted thread ("make waiting
+    // visible"): after 40 ms without any scheduling event it is marked blocked and the token moves on
+    let mut deadlocked = false;
+    loop {
+        let mut st = sched.m.lock().unwrap();
+        if st.finished.iter().all(|&f| f) {
+            break;
+        }
+        let (g, _) = sched.cv.wait_timeout(st, std::time::Duration::from_millis(5)).unwrap();
+        st = g;
+        if st.finished.iter().all(|&f| f) {
+            break;
+        }
+        if st.last_event.elapsed() > std::time::Duration::from_millis(40) {
+            let cur = st.current;
+            if cur < st.finished.len() && !st.finished[cur] {
+                st.blocked[cur] = true;
+            }
+            let next = (0..st.finished.len()).find(|&i| !st.finished[i] && !st.blocked[i]);
+            match next {
+                Some(nx) => {
+                    st.current = nx;
+                    st.forced_switches += 1;
+                    st.last_event = std::time::Instant::now();
+                    sched.cv.notify_all();
+                }
+                None => {
+                    // every unfinished thread is blocked: a real deadlock of the code under test
+                    st.deadlock = true;
+                    deadlocked = true;
+                    break;
+                }
+            }
+        }
+    }
     let mut results = Vec::new();
     for h in handles {
-        results.push(h.join().unwrap_or_default());
+        if deadlocked {
+            // the threads can never be joined; leave them behind
+            results.push(Vec::new());
+            std::mem::forget(h);
+        } else {
+            results.push(h.join().unwrap_or_default());
+        }
     }
     use std::io::Write;
     let _ = std::io::stdout().flush();
@@ -433,11 +503,19 @@ pub fn explore(bodies: &[Vec<Call>], bound: usize, cap: u64, progress: &mut dyn 
         if let Some((exp, act)) = judge(bodies, &iso, &e) {
             // the same schedule must fail the same way before it is believed
             let choices: Vec<usize> = e.points.iter().map(|p| p.enabled.iter().position(|&x| x == p.chosen).unwrap_or(0)).collect();
-            let again = run_once(bodies, &choices);
-            if judge(bodies, &iso, &again).is_none() {
-                st.replay_divergences += 1;
+            // believed only if the recorded schedule fails again (up to three attempts: where real locks are
+            // involved the blocked-thread watchdog makes timing matter)
+            let mut reproduced = false;
+            for _ in 0..3 {
+                let again = run_once(bodies, &choices);
+                if judge(bodies, &iso, &again).is_some() {
+                    reproduced = true;
+                    break;
+                }
             }
-            if st.violations.len() < 5 {
+            if !reproduced {
+                st.replay_divergences += 1;
+            } else if st.violations.len() < 5 {
                 st.violations.push((choices, exp, act));
             }
         } else if st.schedules % 100 == 0 {
